@@ -29,6 +29,12 @@ type Case struct {
 	Bit      int    `json:"bit,omitempty"`
 	Byte     int    `json:"byte,omitempty"`       // 0: single bit flip; else XOR mask for a byte edit
 	LeafIsCA bool   `json:"leaf_is_ca,omitempty"` // the presented (client) certificate carries CA:TRUE (a sub-CA certificate used for client auth)
+	// ExtraTrusted further (irrelevant) trusted signer certificates are configured.
+	ExtraTrusted int `json:"extra_trusted,omitempty"`
+	// Interleave: after the intake a client of ANOTHER CA the server accepts (the signer of the forgery for sibling /
+	// unrelated) connects, a refresh runs and the probe is repeated: what another party's chain contains never
+	// entitles its CA to sign this client's list.
+	Interleave bool `json:"interleave,omitempty"`
 }
 
 var forgeries = []string{
@@ -52,6 +58,8 @@ func genCase(t *rapid.T) Case {
 		Forgery:  rapid.SampledFrom(forgeries).Draw(t, "forgery"),
 		LeafIsCA: rapid.IntRange(0, 3).Draw(t, "leafisca") == 0,
 	}
+	c.ExtraTrusted = rapid.IntRange(0, 6).Draw(t, "extratrusted")
+	c.Interleave = rapid.IntRange(0, 2).Draw(t, "interleave") > 0
 	c.Alg = rapid.SampledFrom(gen.CompatibleAlgs(gen.K(c.CAKey))).Draw(t, "alg")
 	if c.Forgery == "flip" {
 		c.Region = rapid.SampledFrom(regions).Draw(t, "region")
@@ -256,7 +264,12 @@ func runCase(c Case, x *ev.Ctx) error {
 		panic(fmt.Sprintf("harness: construction says authentic=%v, reference says %v for forgery %s", expectAuthentic, refAuth, c.Forgery))
 	}
 
-	ch, err := world.NewChecker(world.CRLOpts{WorkDir: world.NewDir("c04"), Disk: c.Disk, Strict: true, Sig: "verify", Trusted: []*x509.Certificate{trusted.Cert}})
+	trustedList := []*x509.Certificate{trusted.Cert}
+	for i := 0; i < c.ExtraTrusted; i++ {
+		extra := gen.Issue(gen.CertSpec{Key: "p256d", Subject: gen.CN(fmt.Sprintf("%s other signer %d", name, i)), SerialHex: fmt.Sprintf("40%02x", i), KeyUsage: "crlonly", NoEKU: true, ForceSKI: true}, unrelated)
+		trustedList = append(trustedList, extra.Cert)
+	}
+	ch, err := world.NewChecker(world.CRLOpts{WorkDir: world.NewDir("c04"), Disk: c.Disk, Strict: true, Sig: "verify", Trusted: trustedList})
 	if err != nil {
 		return fmt.Errorf("setup: %v", err)
 	}
@@ -300,6 +313,41 @@ func runCase(c Case, x *ev.Ctx) error {
 			return fmt.Errorf("after refresh with offered CRL (%s): probe answered %v (the previous list must stay in force)", c.Forgery, v)
 		}
 	}
+	if c.Interleave {
+		// a client of another accepted CA connects (own CDP, authentic list of its own CA), then a refresh runs
+		otherCA := unrelated
+		if c.Forgery == "sibling" {
+			otherCA = sibling
+		}
+		ol := gen.Issue(gen.CertSpec{Key: "p256d", Subject: gen.CN(name + " other party client"), SerialHex: "0d", CDP: []string{o.URL("/other.crl")}, ForceSKI: true}, otherCA)
+		os := gen.CRLSpec{Version: 1, SigAlg: algFor(otherCA.Key), IssuerDER: otherCA.Cert.RawSubject, ThisUpdate: 1700000000, NextUpdate: 1900000000, Entries: []gen.Entry{{SerialHex: "77", Date: 1690000000}}}
+		o.Serve("/other.crl", os.MustBuild(otherCA.Key))
+		if v := world.Ask(ch, [][]*x509.Certificate{{ol.Cert, otherCA.Cert}}); v.Kind != "ok" {
+			return fmt.Errorf("setup: client of the other CA answered %v", v)
+		}
+		ch.VerifForceUpdate()
+		x.Class("interleaved-other-ca-client")
+		was := inForce
+		if c.Intake == "first" {
+			v := world.Ask(ch, unlisted)
+			inForce = v.Kind == "ok"
+			if v.Kind != "ok" && v.Kind != "error" {
+				return fmt.Errorf("after another CA's client and a refresh (%s): unlisted probe answered %v", c.Forgery, v)
+			}
+		} else {
+			v := world.Ask(ch, listedX)
+			inForce = v.Kind == "revoked"
+			if v.Kind != "ok" && v.Kind != "revoked" {
+				return fmt.Errorf("after another CA's client and a refresh (%s): probe answered %v", c.Forgery, v)
+			}
+		}
+		if inForce && !was {
+			x.Class("in-force-only-after-interleave")
+		}
+		if was && !inForce {
+			return fmt.Errorf("list in force before another CA's client connected is not in force afterwards (forgery=%s intake=%s)", c.Forgery, c.Intake)
+		}
+	}
 	x.Classf("forgery=%s", c.Forgery)
 	x.Classf("intake=%s", c.Intake)
 	if c.Forgery == "flip" {
@@ -325,7 +373,7 @@ func runCase(c Case, x *ev.Ctx) error {
 		// acceptance of authentic lists is C01/C06 territory, but a harness that rejects everything would be vacuous
 		return fmt.Errorf("authentic CRL (forgery=%s alg=%s key=%s aki=%s intake=%s pem=%v) was NOT taken into force", c.Forgery, c.Alg, c.CAKey, c.AKI, c.Intake, c.PEM)
 	}
-	x.NonTrivial(fmt.Sprintf("%s|%s|%s|%s|%s|%s|%d|%v", c.Forgery, c.Region, c.Alg, c.AKI, c.Intake, c.CAKey, c.Depth, c.Pos%64))
+	x.NonTrivial(fmt.Sprintf("%s|%s|%s|%s|%s|%s|%d|%v|%d|%v", c.Forgery, c.Region, c.Alg, c.AKI, c.Intake, c.CAKey, c.Depth, c.Pos%64, c.ExtraTrusted, c.Interleave))
 	return nil
 }
 
